@@ -225,6 +225,9 @@ pub struct Gen {
     /// per-mille probability that an Edit-API handle is chosen among the combinatorially
     /// plausible ones (face with the incident-cell count the move requires)
     pub legal_bias_permille: u64,
+    /// per-mille probability that a vertex handed to the library carries a preset `incident_cell`
+    /// (live, stale or fabricated cell key), like a vertex value copied out of a triangulation
+    pub preset_incident_permille: u64,
 }
 
 fn present(snap: &Snap, p: &[f64]) -> bool {
@@ -247,6 +250,20 @@ impl Gen {
             max_vertices: maxv,
             nonfinite_permille: 0,
             legal_bias_permille: 0,
+            preset_incident_permille: 0,
+        }
+    }
+
+    /// A cell key of any provenance: live in `snap`, stale (seen earlier), or fabricated.
+    fn some_cell_key(&self, rng: &mut Rng, snap: &Snap) -> u64 {
+        let r = rng.below(100);
+        if r < 45 && !snap.cells.is_empty() {
+            snap.cells[rng.usize_below(snap.cells.len())].key
+        } else if r < 85 && !self.stale_cells.is_empty() {
+            *rng.pick(&self.stale_cells)
+        } else {
+            // low slot indices with versions 1..3: collides with live or future cells now and then
+            (rng.below(3) + 1) << 32 | (1 + rng.below(24))
         }
     }
 
@@ -350,13 +367,24 @@ impl Gen {
     pub fn initial_vertices(&self, rng: &mut Rng, n: usize) -> Vec<VSpec> {
         let mut idx: Vec<usize> = (0..self.pool.len()).collect();
         rng.shuffle(&mut idx);
-        idx.into_iter()
+        let mut out: Vec<VSpec> = idx
+            .into_iter()
             .take(n)
             .map(|i| {
                 let data = if rng.chance(1, 2) { Some(rng.range_i64(-1000, 1000) as i32) } else { None };
                 VSpec::new(&self.pool[i], rng.uuid128(), data)
             })
-            .collect()
+            .collect();
+        // "rebuilt from vertices copied out of another triangulation": every input carries a cell key
+        if self.preset_incident_permille > 0 {
+            let mut r2 = Rng::sub(self.seed, "preset-incident", 0);
+            if r2.below(1000) < self.preset_incident_permille {
+                for v in &mut out {
+                    v.incident = Some((r2.below(3) + 1) << 32 | (1 + r2.below(24)));
+                }
+            }
+        }
+        out
     }
 
     fn live_cell(&self, rng: &mut Rng, snap: &Snap) -> Option<CRef> {
@@ -469,6 +497,9 @@ impl Gen {
                     v.bits[i] = (*rng.pick(&[f64::NAN, f64::INFINITY, f64::NEG_INFINITY])).to_bits();
                     v.approx[i] = serde_json::Value::String(format!("{:?}", f64::from_bits(v.bits[i])));
                 }
+                if self.preset_incident_permille > 0 && rng.below(1000) < self.preset_incident_permille {
+                    v.incident = Some(self.some_cell_key(&mut rng, snap));
+                }
                 Op::Insert { obj, v, stats }
             }
             2 => {
@@ -502,6 +533,9 @@ impl Gen {
                         }
                         v = VSpec::new(&c, v.uuid.0, v.data);
                     }
+                }
+                if self.preset_incident_permille > 0 && rng.below(1000) < self.preset_incident_permille {
+                    v.incident = Some(self.some_cell_key(&mut rng, snap));
                 }
                 Op::FlipK1Insert { obj, cell, v }
             }
